@@ -12,13 +12,13 @@ EXTENDS SemBatch
 Facts == ndJsonDeserialize("facts.ndjson")
 \* Facts[p] = [probes |-> <<[line, type, labels : <<Nat>>, alias : <<Nat>>, query : BOOLEAN]>>]
 
-ToSet(q) == {q[j] : j \in 1 .. Len(q)}
+SeqToSet(q) == {q[j] : j \in 1 .. Len(q)}
 ProbeAt(pp, l) == LET S == {j \in 1 .. Len(Facts[pp].probes) : Facts[pp].probes[j].line = l} IN
                   IF S = {} THEN [line |-> l, type |-> "?", labels |-> <<>>, alias |-> <<>>, query |-> FALSE]
                   ELSE Facts[pp].probes[CHOOSE j \in S : TRUE]
 
-AllocOK(pp, e) == e.c \in ToSet(ProbeAt(pp, e.a).labels)
-AliasOK(pp, e) == ProbeAt(pp, e.a).type # ProbeAt(pp, e.b).type \/ e.b \in ToSet(ProbeAt(pp, e.a).alias)
+AllocOK(pp, e) == e.c \in SeqToSet(ProbeAt(pp, e.a).labels)
+AliasOK(pp, e) == ProbeAt(pp, e.a).type # ProbeAt(pp, e.b).type \/ e.b \in SeqToSet(ProbeAt(pp, e.a).alias)
 
 Sound == \A e \in ev : /\ e.e = "probe" => AllocOK(p, e)
                        /\ e.e = "alias" => AliasOK(p, e)
